@@ -311,6 +311,46 @@ def linked_worktree_cases(ctx, eng, res, stats):
                     "the description printed for %s does not resolve (git rev-parse) to the cited object" % pkey, inp,
                     expected=oidhex, observed={"description": desc, "rev-parse": got or p.stderr.decode("latin1")[:100]}))
     shutil.rmtree(d, ignore_errors=True)
+    # ROOTs of the form <rev>:<path> naming a TREE, also through a directory whose name ends in a colon
+    cs = S.Scenario()
+    cbig = cs.add({"kind": "blob", "data": b"C" * 200000})
+    csm = cs.add({"kind": "blob", "data": b"c\n"})
+    ce1 = cs.add({"kind": "tree", "entries": [(0o100644, b"f", cbig), (0o100644, b"g", csm)]})
+    ce2 = cs.add({"kind": "tree", "entries": [(0o100644, b"g", csm), (0o100644, b"h", csm), (0o100644, b"i", csm)]})
+    cx = cs.add({"kind": "tree", "entries": [(0o40000, b"e", ce1)]})
+    cy = cs.add({"kind": "tree", "entries": [(0o40000, b"e", ce2)]})
+    ctop = cs.add({"kind": "tree", "entries": [(0o40000, b"x:", cx), (0o40000, b"y", cy), (0o100644, b"z", csm)]})
+    cc = cs.add({"kind": "commit", "tree": ctop, "parents": []})
+    cs.refs.append((b"refs/heads/main", cc))
+    cs.compute()
+    d2 = os.path.join(eng.scratch, "colon-dir")
+    cs.materialise(d2)
+    for args in (["main:y"], ["main:x:"], ["main~0:x:", "main:y"], ["main:y/e"], ["main:x:/e"]):
+        cli = ["--json", "--no-progress", "--names=full"] + args
+        rc, out, err = S.run_sizer(ctx["bins"]["sizer"], d2, cli)
+        inp = {"args": cli, "tree": {"x:/e/f": "200000 bytes", "y/e/{g,h,i}": "small"}}
+        res.case(("colon-directory-root", tuple(args)), True)
+        if rc != 0:
+            res.violations.append(vlib.Violation("run failed: %s" % err[:200].decode("latin1"), inp))
+            continue
+        j = json.loads(out)
+        for pkey, vkey, kind in SLOTS:
+            val = j.get(pkey)
+            if not val:
+                continue
+            oidhex, _, desc = val.partition(" ")
+            desc = desc[1:-1] if desc.startswith("(") else ""
+            if not desc:
+                continue
+            p = subprocess.run(["git", "rev-parse", "--verify", "--end-of-options", desc], cwd=d2, env=S.clean_env(), stdout=subprocess.PIPE, stderr=subprocess.PIPE)
+            stats["descriptions_resolved_by_git"] += 1
+            got = p.stdout.decode().strip()
+            if p.returncode != 0 or got != oidhex:
+                cls = "tree-root-joined-with-slash" if any(desc.startswith(a + "/") and not a.endswith(":") for a in args) else None
+                res.violations.append(vlib.Violation(
+                    "the description printed for %s does not resolve (git rev-parse) to the cited object" % pkey, inp,
+                    expected=oidhex, observed={"description": desc, "rev-parse": got or p.stderr.decode("latin1")[:100]}, cls=cls))
+    shutil.rmtree(d2, ignore_errors=True)
 
 
 def one_style(ctx, eng, res, stats, sc, args, explicit, roots, walked, style, real, order_fake, it):
